@@ -6,6 +6,7 @@
 mod addr;
 mod cfgops;
 mod pb;
+mod probe;
 mod scen;
 mod step;
 mod suites;
@@ -77,6 +78,29 @@ fn main() {
             }
             symcore::set_concrete(model);
             let r = suites::replay_case(&suite, &case, &props, &label, miniwasm);
+            println!("{}", serde_json::to_string(&r).unwrap());
+            std::process::exit(if r["reproduced"].as_bool().unwrap_or(false) { 1 } else { 0 });
+        }
+        "probe" => {
+            let kind = args.opts.get("kind").cloned().expect("--kind");
+            let model_file = args.opts.get("model").cloned().expect("--model");
+            let txt = std::fs::read_to_string(&model_file).expect("model file");
+            let v: serde_json::Value = serde_json::from_str(&txt).expect("model json");
+            let mut model: HashMap<String, String> = HashMap::new();
+            if let Some(m) = v.get("model").and_then(|m| m.as_object()) {
+                for (k, val) in m {
+                    model.insert(k.clone(), val.as_str().map(|s| s.to_string()).unwrap_or_else(|| val.to_string()));
+                }
+            }
+            symcore::set_concrete(HashMap::new());
+            let r = match kind.as_str() {
+                "own-staking" => probe::own_history("staking", &model),
+                "own-treasury" => probe::own_history("treasury", &model),
+                "submit" => probe::time_step("submit", &model),
+                "receive" => probe::time_step("receive", &model),
+                "instantiate" => probe::instantiate_period(&model),
+                other => serde_json::json!({"reproduced": false, "error": format!("unknown probe {other}")}),
+            };
             println!("{}", serde_json::to_string(&r).unwrap());
             std::process::exit(if r["reproduced"].as_bool().unwrap_or(false) { 1 } else { 0 });
         }
